@@ -1,6 +1,8 @@
 package ops
 
 import (
+	"math"
+
 	"gorgonia.org/tensor"
 )
 
@@ -28,8 +30,37 @@ func Tanh(X tensor.Tensor) (tensor.Tensor, error) {
 	return tensor.Tanh(X)
 }
 
+// The smallest inputs for which the sigmoid is calculated; smaller inputs give the same
+// result as these values. Their exponential does not overflow in float32 and float64.
+const (
+	minSigmoidInput32 = -88.0
+	minSigmoidInput64 = -709.0
+)
+
 // Sigmoid performs the sigmoid operation on a tensor.
 func Sigmoid(X tensor.Tensor) (tensor.Tensor, error) {
+	// The exponential of very large values is not calculated correctly (it does not
+	// always saturate to infinity). Below the bound used here the sigmoid is zero anyway, as
+	// far as the smallest normal number of the type can tell, so we clamp the input to it.
+	var (
+		minX, maxX any
+		err        error
+	)
+
+	switch X.Dtype() {
+	case tensor.Float32:
+		minX, maxX = float32(minSigmoidInput32), float32(math.MaxFloat32)
+	case tensor.Float64:
+		minX, maxX = float64(minSigmoidInput64), float64(math.MaxFloat64)
+	default:
+		return nil, ErrCast
+	}
+
+	X, err = tensor.Clamp(X, minX, maxX)
+	if err != nil {
+		return nil, err
+	}
+
 	negX, err := tensor.Neg(X)
 	if err != nil {
 		return nil, err
